@@ -601,6 +601,9 @@ class ExprMixin:
         return self.getitem(base, idx, st, node)
 
     def getitem(self, base: Sym, idx: Sym, st, node=None) -> Sym:
+        if base.kind == "pyobj" and base.py[0] in ("external", "module"):
+            # an external object (sys.modules, os.environ, ...): opaque value
+            return S_val(uf("py_getitem", V, V, V)(box(base, st), box(idx, st)))
         base = self._unwrap_container(base, st)
         where = f"line {getattr(node, 'lineno', '?')}"
         if base.kind == "seq" or (base.kind == "val" and base.spec is not None and base.spec.kind == "seq"):
